@@ -591,6 +591,10 @@ class Explorer:
             if re.match(r'^<std::rc::Rc<T(, A)?> as std::clone::Clone>::clone$', name) and len(args) == 1:
                 ret, pure = self.deref_ptr(st, fr, args[0]), True
                 ev['rc_clone'] = True
+            elif re.match(r'^std::rc::Rc::<T(, A)?>::downgrade$', name) and len(args) == 1 and strip_upd(args[0])[0] == 'ref' \
+                    and strip_upd(args[0])[1][0][0] == 'loc' and fr.depth > 0:
+                # a weak link to the object an Rc held in a local of an inlined callee denotes: name the object, not the (short-lived) local
+                ret, pure = ('pcall', name, (('refval', self.load(st, fr, strip_upd(args[0])[1])),), 0), True
             elif re.match(r'^<std::rc::Rc<T(, A)?> as std::ops::Deref>::deref$', name) and len(args) == 1:
                 # pointer to the shared object an Rc value denotes
                 ret, pure = ('rcptr', self.deref_ptr(st, fr, args[0])), True
